@@ -128,6 +128,8 @@ def wl_exhaustive(ctx, rng, case):
 def wl_random(ctx, rng, case):
     """random operation sequences on one array, sizes 1..70"""
     n = rng.choice([rng.randint(1, 70), rng.choice([7, 8, 9, 15, 16, 17, 31, 32, 33, 63, 64, 65])])
+    if case.index % 25 == 3:
+        n = rng.choice([255, 256, 257, 1000, 1023, 1024, 1025, 4096, 4097, 5000])  # beyond one machine word / one page of bits
     from probables.utilities import Bitarray
 
     ba = Bitarray(n)
